@@ -325,6 +325,7 @@ CHECKS = {
     'C16': {
         'level': 'model_checking',
         'jobs': [
+            C('hops', 'TestHops', 'TraceHops', trivial_len=3, vtimeout=3000),   # hostile hop counts (255: wraps when incremented), round-8 change C16-m14
             C('hsscn', 'TestHandshaker', 'TraceHandshaker', file='handshaker', trivial_len=3, n={'quick': 400, 'thorough': 2000},
               scn=[('MC_HsScn', {'quick': ['HsScn.cfg'], 'thorough': ['HsScn.cfg']})]),
             T('MC_Wire', 'Wire.cfg', workers=4),
